@@ -21,6 +21,7 @@ import (
 	"verif/shim/vctx"
 	"verif/shim/vnet"
 	"verif/shim/vsync"
+	"verif/shim/vtime"
 )
 
 // env abstracts what a history needs.
@@ -437,6 +438,142 @@ var histories = []history{
 		default:
 		}
 		return before + "," + sel + "," + after + "," + sel2
+	}},
+	{"select-picks-the-ready-case", func(e env) string {
+		a, b := make(chan int, 1), make(chan int, 1)
+		a <- 7
+		if e.Real() {
+			select {
+			case v := <-a:
+				return fmt.Sprint("a ", v)
+			case v := <-b:
+				return fmt.Sprint("b ", v)
+			}
+		}
+		switch vrt.Select(false, vrt.RecvCase(a), vrt.RecvCase(b)) {
+		case 0:
+			return fmt.Sprint("a ", vrt.Recv(a))
+		default:
+			return fmt.Sprint("b ", vrt.Recv(b))
+		}
+	}},
+	{"select-closed-channel-is-ready", func(e env) string {
+		var ctx context.Context
+		var cancel context.CancelFunc
+		if e.Real() {
+			ctx, cancel = context.WithCancel(context.Background())
+		} else {
+			ctx, cancel = vctx.WithCancel(context.Background())
+		}
+		cancel()
+		never := make(chan int)
+		if e.Real() {
+			select {
+			case _, ok := <-ctx.Done():
+				return fmt.Sprint("done ", ok)
+			case v := <-never:
+				return fmt.Sprint("never ", v)
+			}
+		}
+		d := ctx.Done()
+		switch vrt.Select(false, vrt.RecvCase(d), vrt.RecvCase(never)) {
+		case 0:
+			_, ok := vrt.Recv2(d)
+			return fmt.Sprint("done ", ok)
+		default:
+			return fmt.Sprint("never ", vrt.Recv(never))
+		}
+	}},
+	{"select-blocks-until-a-sender-arrives", func(e env) string {
+		ch, never := make(chan int), make(chan int)
+		res := ""
+		e.Go(func() {
+			e.Sleep(30 * time.Millisecond)
+			if e.Real() {
+				ch <- 5
+			} else {
+				vrt.Send(ch, 5)
+			}
+		})
+		if e.Real() {
+			select {
+			case v := <-ch:
+				res = fmt.Sprint("ch ", v)
+			case v := <-never:
+				res = fmt.Sprint("never ", v)
+			}
+		} else {
+			switch vrt.Select(false, vrt.RecvCase(ch), vrt.RecvCase(never)) {
+			case 0:
+				res = fmt.Sprint("ch ", vrt.Recv(ch))
+			default:
+				res = fmt.Sprint("never ", vrt.Recv(never))
+			}
+		}
+		e.Wait()
+		return res
+	}},
+	{"select-send-case-needs-a-receiver", func(e env) string {
+		// no receiver: the timer case wins; with a receiver waiting: the send case proceeds
+		out := ""
+		for _, withReceiver := range []bool{false, true} {
+			ch := make(chan int)
+			got := 0
+			if withReceiver {
+				e.Go(func() {
+					if e.Real() {
+						got = <-ch
+					} else {
+						got = vrt.Recv(ch)
+					}
+				})
+			}
+			e.Sleep(20 * time.Millisecond) // the receiver, if any, is blocked by now
+			if e.Real() {
+				select {
+				case ch <- 9:
+					out += "sent "
+				case <-time.After(60 * time.Millisecond):
+					out += "timer "
+				}
+			} else {
+				t := vtime.After(60 * time.Millisecond)
+				switch vrt.Select(false, vrt.SendCase(ch), vrt.RecvCase(t)) {
+				case 0:
+					vrt.Send(ch, 9)
+					out += "sent "
+				default:
+					vrt.Recv(t)
+					out += "timer "
+				}
+			}
+			if withReceiver {
+				e.Wait()
+				out += fmt.Sprint(got)
+			}
+		}
+		return out
+	}},
+	{"ctx-cancel-wakes-a-blocked-receiver", func(e env) string {
+		var ctx context.Context
+		var cancel context.CancelFunc
+		if e.Real() {
+			ctx, cancel = context.WithCancel(context.Background())
+		} else {
+			ctx, cancel = vctx.WithCancel(context.Background())
+		}
+		e.Go(func() {
+			e.Sleep(30 * time.Millisecond)
+			cancel()
+		})
+		ok := true
+		if e.Real() {
+			_, ok = <-ctx.Done()
+		} else {
+			_, ok = vrt.Recv2(ctx.Done())
+		}
+		e.Wait()
+		return fmt.Sprint("woken ", ok, " ", errClass(ctx.Err()))
 	}},
 	{"ctx-timeout", func(e env) string {
 		var ctx context.Context
